@@ -5,7 +5,7 @@ CONSTANTS
   MaxAppend = 4
   MaxCuts = 1
   MaxDamage = 1
-  W_EntiAlways = FALSE
+  W_EntiAlways = TRUE
   MaxReady = 4
   InstallSaveFirst = FALSE
   SnapshotMustBeInWal = TRUE
